@@ -53,7 +53,9 @@ def run_seed(seed, repo="/repo"):
         mod = importlib.import_module("rules.%s" % seed["prop"].lower())
         mod.run(rep, db, "quick")
         viol = rep.violations()
-        keys = [r.key for r in viol]
+        from rules.report import load_known
+        known, _ = load_known()
+        keys = [r.key for r in viol if not (r.key in known and known[r.key][0] == seed["prop"])]      # recorded open findings are not alarms
         want = seed.get("expect")
         if want == "SILENT":
             # a behaviour-preserving edit: any report is a false alarm of the checker
